@@ -261,7 +261,13 @@ func genHost(t *kernel.Tape, ver int, rs []*requester) (host string) {
 	case 4:
 		return "custom-" + kernel.Pick(t, rs, "rq").name + ".test"
 	case 5:
-		return "always." + hashTag(kernel.Pick(t, hashIDs, "hid")) + ".test"
+		h := "always." + hashTag(kernel.Pick(t, hashIDs, "hid")) + ".test"
+		if t.Chance(1, 2, "subdomain-of-listed") {
+			// A name under a listed one: matched by its parent.
+			h = kernel.Pick(t, []string{"www.", "a.b."}, "sub-labels") + h
+		}
+
+		return h
 	default:
 		return "harmless.example"
 	}
